@@ -494,15 +494,16 @@ def tolerateOverrun (items : String) (modelEntries implEntries : List String) (r
     if !its.contains .overrun then implEntries else
     let n := its.length
     let leftOf (e : String) : Nat := (((res e).splitOn "@").getD 1 "0").toNat?.getD 0
-    let rec go (ms is : List String) (prevLeft : Nat) (acc : List String) : List String :=
+    let rec go (ms is : List String) (prevLeft : Nat) (conv : Bool) (acc : List String) : List String :=
       match ms, is with
       | m :: mt, i :: it =>
         let lastConsumed := its.getD (n - leftOf m - 1) .wouldBlock
-        let i' := if res m != res i && (res m).startsWith "nothing@" && res i == "err@" ++ toString (leftOf m)
-                     && leftOf m < prevLeft && lastConsumed == .overrun then put i (res m) else i
-        go mt it (leftOf m) (i' :: acc)
+        let c := res m != res i && (res m).startsWith "nothing@" && res i == "err@" ++ toString (leftOf m)
+                     && leftOf m < prevLeft && lastConsumed == .overrun
+        go mt it (leftOf m) c ((if c then put i (res m) else i) :: acc)
+      | [], [x] => if conv && res x == "nothing@0" then acc.reverse else acc.reverse ++ [x]
       | _, rest => acc.reverse ++ rest
-    go modelEntries implEntries n []
+    go modelEntries implEntries n false []
 
 /-- the same for a hard read error of the USART device while the receiver waits for a frame delimiter (`nb::Error::Other`;
 no property quantifies over device read errors on the USART): the pinned receiver answers "nothing received" -/
@@ -513,15 +514,17 @@ def tolerateReadError (items : String) (modelEntries implEntries : List String) 
     if !its.contains .error then implEntries else
     let n := its.length
     let leftOf (e : String) : Nat := ((e.splitOn "@").getD 1 "0").toNat?.getD 0
-    let rec go (ms is : List String) (prevLeft : Nat) (acc : List String) : List String :=
+    let rec go (ms is : List String) (prevLeft : Nat) (conv : Bool) (acc : List String) : List String :=
       match ms, is with
       | m :: mt, i :: it =>
         let lastConsumed := its.getD (n - leftOf m - 1) .wouldBlock
-        let i' := if m != i && m.startsWith "nothing@" && i == "err@" ++ toString (leftOf m)
-                     && leftOf m < prevLeft && lastConsumed == .error then m else i
-        go mt it (leftOf m) (i' :: acc)
+        let c := m != i && m.startsWith "nothing@" && i == "err@" ++ toString (leftOf m)
+                     && leftOf m < prevLeft && lastConsumed == .error
+        go mt it (leftOf m) c ((if c then m else i) :: acc)
+      -- the harness polls until a poll finds nothing: an error answer to the last item is followed by one more poll
+      | [], [x] => if conv && x == "nothing@0" then acc.reverse else acc.reverse ++ [x]
       | _, rest => acc.reverse ++ rest
-    go modelEntries implEntries n []
+    go modelEntries implEntries n false []
 
 def scenRx (link items obs : String) : Verdict :=
   match rxModel link items with
